@@ -100,8 +100,8 @@ static int next_vector(int bound)
 }
 
 /* ---------- documents ---------- */
-static const int SIZES[] = {2, 9, 12, 40, 4095, 4096, 4097, 9000};
-#define NSIZES 8
+static const int SIZES[] = {2, 9, 12, 40, 4095, 4096, 4097, 9000, 12288, 20000, 70000};
+#define NSIZES 11
 static struct json_object *doc_of_size(int size, int flags, char **text_out)
 {
 	/* a string node whose serialization under `flags` has exactly `size` bytes (flags add nothing to a bare string) */
@@ -310,7 +310,7 @@ static void enumerate(void)
 			{
 				int small = doc < 3; /* <= 12 bytes: all compositions */
 				all_sizes = small;
-				explore_write(doc, flagsets[f], to_file, small ? 99 : bound);
+				explore_write(doc, flagsets[f], to_file, small ? 99 : (doc >= 8 && doc < NSIZES && bound > 2) ? (doc == 10 ? 2 : 3) : bound);
 			}
 	for (int doc = 0; doc < NREADDOCS; doc++)
 		for (int variant = 0; variant < 4; variant++)
@@ -318,7 +318,7 @@ static void enumerate(void)
 			int small = doc < 3 || doc >= NSIZES + 1;
 			all_sizes = small;
 			int depth = variant == 1 ? 3 : variant == 2 ? 32 : -1;
-			explore_read(doc, depth, variant == 3, small ? 99 : bound);
+			explore_read(doc, depth, variant == 3, small ? 99 : (doc >= 8 && doc < NSIZES && bound > 2) ? (doc == 10 ? 2 : 3) : bound);
 		}
 	/* argument errors and unopenable files */
 	cur_op = "argument-errors";
